@@ -69,7 +69,7 @@ def opAdd (a : Json) : Json :=
                  | none => Json.null)]
 
 def opDeserialize (a : Json) : Json :=
-  exceptJson jtable (deserialize ((getBool? a "legacy").getD false) (pairsOf (get a "section")))
+  exceptJson jtable (deserialize ((getBool? a "legacy").getD false) (pairsOf (get a "section")) (tableOf (get a "initial")))
 
 def opSerialize (a : Json) : Json :=
   exceptJson (fun l => Json.arr (l.map fun e => Json.arr #[jstr e.1, jstr e.2]).toArray) (serialize (tableOf (get a "table")))
